@@ -1521,6 +1521,9 @@ class Evaluator:
         # value semantics of and/or with the x or Empty() idiom
         if not isand and len(vals) == 2 and isinstance(vals[1], DictV) and \
                 not vals[1].has_symbolic() and not vals[1].keys():
+            c0 = truthy(vals[0])
+            if isinstance(c0, Const) and isinstance(c0.v, bool):
+                return vals[0] if c0.v else vals[1]      # a falsy first operand (None, 0, '', [], {}) gives the empty mapping
             return vals[0] if not (isinstance(vals[0], Const) and vals[0].v is None) else vals[1]
         if len(vals) == 2 and not any(isinstance(v, (Cmp, BoolT)) or (isinstance(v, Const) and isinstance(v.v, bool))
                                       for v in vals) and any(isinstance(v, (Obj, DictV, Tup)) for v in vals):
@@ -1569,8 +1572,15 @@ class Evaluator:
                     return Const(not pos)
             if same(a, b):
                 return Const(pos)
-            if isinstance(b, Const) and b.v is None and isinstance(a, App) and a.name == 'copy':
-                return Const(not pos)
+            if isinstance(b, Const) and b.v is None and isinstance(a, App) and (
+                    a.name in ('copy', 'setitem', 'dict.updated', 'dict.without') or (
+                        a.name == 'apply' and a.args and isinstance(a.args[0], App)
+                        and a.args[0].name in ('attr:copy', 'attr:deepcopy'))):
+                return Const(not pos)          # the result of copying / updating a mapping is a mapping, never None
+            if isinstance(b, Const) and b.v is None and isinstance(a, Ite):
+                l_, r_ = self.compare(op, a.a, b), self.compare(op, a.b, b)
+                if isinstance(l_, Const) and isinstance(r_, Const) and l_.v == r_.v:
+                    return l_
             return Cmp('is' if pos else 'isnot', a, b)
         if isinstance(op, (ast.In, ast.NotIn)):
             pos = isinstance(op, ast.In)
